@@ -61,10 +61,26 @@ rule "third" salience 1 begin
   secret = 99
   zq = secret + 1
 end
+rule "writer" salience 9 begin
+  Shared.V = Shared.V + 1
+end
+rule "reader" salience -9 begin
+  probe3(Shared.V)
+end
 `
 	var probed2 int64
 	probe2 := func(v int64) { atomic.AddInt64(&probed2, 1) }
-	apis := map[string]interface{}{"once": once, "probe": probe, "hold": hold, "probe2": probe2}
+	// injected names, in contrast, are shared by all rules of a call: what the highest-priority
+	// rule stores into Shared.V is what the lowest-priority rule reads (sort model)
+	type sharedT struct{ V int64 }
+	shared := &sharedT{}
+	var seen3 []int64
+	probe3 := func(v int64) {
+		mu.Lock()
+		seen3 = append(seen3, v)
+		mu.Unlock()
+	}
+	apis := map[string]interface{}{"once": once, "probe": probe, "hold": hold, "probe2": probe2, "probe3": probe3, "Shared": shared}
 	dc := context.NewDataContext()
 	for n, v := range apis {
 		dc.Add(n, v)
@@ -128,6 +144,23 @@ end
 		eng.Execute(rb, true)
 		eng.ExecuteSelectedRules(rb, []string{"leak"})
 	})
+	// (1b) injected data written by an earlier rule is visible to a later rule of the same call
+	{
+		mu.Lock()
+		seen3 = nil
+		mu.Unlock()
+		shared.V = 40
+		eng.Execute(rb, true)
+		eng.ExecuteSelectedRulesWithControlAsGivenSortedName(rb, true, []string{"writer", "reader"})
+		mu.Lock()
+		got := append([]int64{}, seen3...)
+		mu.Unlock()
+		k.Eval(1)
+		if len(got) != 2 || got[0] != 41 || got[1] != 42 {
+			k.Violate("injected-not-shared", fmt.Sprintf("a value stored into injected data by the first rule of a sort-model call was not what the last rule read: reads %v, expected [41 42]", got),
+				map[string]interface{}{"rule_text": text})
+		}
+	}
 	// (2) every model once after an assigning sort call
 	round("later-call-other-models", func() {
 		eng.Execute(rb, true)
